@@ -57,11 +57,18 @@ def main(argv=None):
     if a.replay:
         return do_replay(prop, cfg, a.replay)
     mod = importlib.import_module(cfg["module"])
-    if hasattr(mod, "drive"):
-        # the module runs its own driver (CLI / process-level properties)
-        out = mod.drive(prop, tier, seed, cfg)
-    else:
-        out = drive_batches(prop, tier, seed, cfg, a.scale)
+    try:
+        if hasattr(mod, "drive"):
+            # the module runs its own driver (CLI / process-level properties)
+            out = mod.drive(prop, tier, seed, cfg)
+        else:
+            out = drive_batches(prop, tier, seed, cfg, a.scale)
+    except Exception:
+        # an error of the harness itself decides nothing about the property: inconclusive, never "violated"
+        import traceback
+        traceback.print_exc()
+        print("INCONCLUSIVE: the harness failed before a verdict was reached (see traceback above)")
+        return 2
     return finish(prop, tier, seed, cfg, out, t0)
 
 
